@@ -267,6 +267,28 @@ def extract():
                  [[n, container_attrs(tr_msg, k, n) or "?"] for k, n in
                   (("enum", "ExecuteMsg"), ("enum", "QueryMsg"), ("struct", "InstantiateMsg"), ("struct", "MigrateMsg"))] + \
                  [["SwapRoute", container_attrs(tr_state, "struct", "SwapRoute") or "?"]]
+    return canonical(out)
+
+
+def canonical(out):
+    """what serde and cw-storage-plus do not care about is normalised away, so that a harmless rewrite (fields or
+    variants re-ordered, a storage constant renamed, a derive added) leaves the table unchanged: fields sorted by
+    name, variants by tag, storage items as sorted `constructor:key`, only serde-relevant container attributes"""
+    def serde_only(a):
+        keep = [x for x in a.split(" ") if x.startswith("#[cw_serde") or x.startswith("#[serde(")]
+        return " ".join(keep)
+    for c in out.values():
+        for key, v in list(c.items()):
+            if v is None or key == "entry_points":
+                continue
+            if key == "storage_keys":
+                c[key] = sorted([["item", b] for _, b in v], key=lambda x: x[1])
+            elif key == "attrs":
+                c[key] = sorted([[n, serde_only(a)] for n, a in v])
+            elif v and isinstance(v[0][1], list):
+                c[key] = sorted([[tag, sorted(fs)] for tag, fs in v])
+            else:
+                c[key] = sorted(v)
     return out
 
 
